@@ -6,7 +6,7 @@ from typing_extensions import Self
 
 from ..utils.data_types import DataArray, DataObject
 from ..utils.sanity_checks import assert_not_complex
-from ..utils.xarray_utils import get_matrix_rank
+from ..utils.xarray_utils import get_deterministic_sign_multiplier, get_matrix_rank
 from ..utils.xarray_utils import total_variance as compute_total_variance
 from ._numpy._sparse_pca import compute_rspca, compute_spca
 from .base_model_single_set import BaseModelSingleSet
@@ -234,6 +234,11 @@ class SparsePCA(BaseModelSingleSet):
                 "mode": np.arange(1, self.n_modes + 1),
             },
         )
+
+        # Flip signs of the modes to ensure deterministic output
+        sign_multiplier = get_deterministic_sign_multiplier(components, feature_name)
+        components = components * sign_multiplier
+        components_normal = components_normal * sign_multiplier
 
         # Transform the data
         scores = xr.dot(X, components, dims=feature_name)
